@@ -1,7 +1,7 @@
 #!/bin/bash
 # re-evaluate every seeded change against the check of its property (applies/undoes the patch in /repo)
 cd /verif
-for d in seeded/C*_*; do
+for d in seeded/*_*/; do
   n=$(basename $d)
   timeout 1500 python3 tools/seeded.py eval $n > work/eval_$n.json 2>&1
   python3 - <<PY
